@@ -7,7 +7,8 @@ LEVEL = "other"
 EXPLANATION = (
     "Veto-before-write, decided on every abstract trace of parent.setter, children.setter and children.deleter of both "
     "mixins (callees inlined, hooks may raise wherever called, loops unrolled 0..2): a veto-able raise point (explicit "
-    "TreeError/LoopError, failing iteration of the children argument, a _pre_* hook) whose exception escapes the entry "
+    "TreeError/LoopError, failing iteration of the children argument, the first attribute access on an argument nobody "
+    "validated as a node, a _pre_* hook) whose exception escapes the entry "
     "point must not be preceded by a link write that is still in effect (A2); a compensation handler must restore every "
     "list written (A2i) and must not itself pass through veto-able code (A2ii). Complete at the abstraction level of "
     "events; the rule is monotone in trace prefixes so two loop iterations exhibit every 'write in iteration k, veto in "
